@@ -650,8 +650,10 @@ struct FGen {
     unsigned k = (unsigned)r.below(100);
     if (k < 45 || ints_wr.empty()) {
       long cell = (long)r.range(0, a.n - 1);
-      if (r.chance(1, 40))
-        cell = a.n; // out of range: outside the model, must not be reported
+      // a cell just beyond the initialised range: a store creates it (crab arrays are
+      // unbounded maps), a load is outside the model unless a store came first
+      if (r.chance(1, 8))
+        cell = a.n + (long)r.below(2);
       return LinExp(mpz_class(cell * a.esz));
     }
     std::string i = iwr();
@@ -1097,8 +1099,12 @@ struct FGen {
       pro.push_back(s);
     }
     // most references start allocated and initialised (the others start null)
+    // lazy mode (one function in four): most references start null, so that regions
+    // start without references and are populated on some paths only (reference
+    // counters 0 | [1,+oo] at joins)
+    bool lazy = r.chance(1, 4);
     for (auto &p : refs) {
-      if (r.chance(1, 5))
+      if (r.chance(lazy ? 3 : 1, 5))
         continue;
       pro.push_back(mk_make_ref(p));
       Stmt st;
